@@ -94,11 +94,22 @@ impl InstructionGenerator {
     ) {
         self.push(Instruction::BeginCollectArguments, pos);
         for (param_name, Positioned { element: arg, pos }) in param_names.iter().zip(args.iter()) {
-            self.generate_expression_instructions_casting(
-                arg.clone().at(pos),
-                param_name.expression_type(),
-            );
-            self.push(Instruction::PushNamed(param_name.clone()), *pos);
+            if arg.is_by_ref() && Self::has_array_indices(arg) {
+                // the array indices are evaluated only once: the resolved path
+                // is used again when the value is written back after the call
+                self.generate_expression_instructions_casting_optionally_by_ref(
+                    arg.clone().at(pos),
+                    param_name.expression_type(),
+                    false,
+                );
+                self.push(Instruction::PushNamedByRef(param_name.clone()), *pos);
+            } else {
+                self.generate_expression_instructions_casting(
+                    arg.clone().at(pos),
+                    param_name.expression_type(),
+                );
+                self.push(Instruction::PushNamed(param_name.clone()), *pos);
+            }
         }
     }
 
@@ -126,10 +137,28 @@ impl InstructionGenerator {
     fn generate_un_stash_by_ref_args(&mut self, args: &Expressions) {
         for Positioned { element: arg, pos } in args {
             if arg.is_by_ref() {
-                self.push(Instruction::DequeueFromReturnStack, *pos);
-                self.generate_fix_string_length(arg, *pos);
-                self.generate_store_instructions(arg.clone(), *pos);
+                if Self::has_array_indices(arg) {
+                    // write back to the array element that was passed: restore
+                    // the path that was resolved before the call
+                    self.push(Instruction::DequeueFromReturnStackWithPath, *pos);
+                    self.generate_fix_string_length(arg, *pos);
+                    self.push(Instruction::CopyAToVarPath, *pos);
+                } else {
+                    self.push(Instruction::DequeueFromReturnStack, *pos);
+                    self.generate_fix_string_length(arg, *pos);
+                    self.generate_store_instructions(arg.clone(), *pos);
+                }
             }
+        }
+    }
+
+    /// Checks if the path of the given by-ref argument needs evaluation
+    /// (i.e. it is an array element, or a property of an array element).
+    fn has_array_indices(arg: &Expression) -> bool {
+        match arg {
+            Expression::ArrayElement(_, indices, _) => !indices.is_empty(),
+            Expression::Property(left_side, _, _) => Self::has_array_indices(left_side),
+            _ => false,
         }
     }
 
